@@ -14,8 +14,8 @@ trap 'git -C /repo worktree remove --force "$wt" >/dev/null 2>&1' EXIT
 log="$dst/confirm.txt"; : > "$log"
 say() { echo "$*" | tee -a "$log"; }
 say "confirmed against tabula HEAD $(git -C /repo log --oneline | head -1)"
-demo=$(ls "$dst"/demo/*_test.go 2>/dev/null | head -1)
-rundemo() { cp "$demo" "$wt/$pkg/zz_seed_demo_test.go"; (cd "$wt" && go test -vet=off -count=1 -run "$tname" "./$pkg/" >"/tmp/demo-$$.log" 2>&1); rc=$?; rm -f "$wt/$pkg/zz_seed_demo_test.go"; return $rc; }
+# every *_test.go of the demonstration is copied (some demonstrations bring a helper file next to the test)
+rundemo() { k=0; for f in "$dst"/demo/*_test.go; do k=$((k+1)); cp "$f" "$wt/$pkg/zz_seed_demo${k}_test.go"; done; (cd "$wt" && go test -vet=off -count=1 -run "$tname" "./$pkg/" >"/tmp/demo-$$.log" 2>&1); rc=$?; rm -f "$wt/$pkg"/zz_seed_demo*_test.go; return $rc; }
 rundemo; say "demo without change: exit $? (expected 0)"
 git -C "$wt" apply "$dst/patch.diff" || { say "PATCH DOES NOT APPLY"; exit 1; }
 (cd "$wt" && go build ./... ) || { say "DOES NOT COMPILE"; exit 1; }
